@@ -67,6 +67,14 @@ fn specs(thorough: bool) -> Vec<AfSpec> {
             s.tfee = Some((100, 5_000));
             s
         },
+        // sparse arrays: only the two arrays holding the bounds of one WIDE position exist; the price and every swap of the alphabet
+        // run through arrays that were never initialised (the swap sees them as empty stand-ins) while liquidity is in range
+        {
+            let mut s = spec("c14-gs64-sparse", AfConsts { filter: 30, decay: 600, reduction: 5000, control: 99_999, max_acc: 350_000, group: 64, threshold: 64 }, false);
+            s.positions = vec![(-11200, 11328, L)];
+            s.arrays = vec![-2, 2];
+            s
+        },
         // control factor 0 with a static-fee twin
         spec("c14-cf0-twin", AfConsts { filter: 30, decay: 600, reduction: 5000, control: 0, max_acc: 80_000, group: 16, threshold: 64 }, true),
     ];
